@@ -36,6 +36,11 @@ type fsm struct {
 	closeCh   chan struct{}
 	doneCh    chan struct{}
 
+	// channels for coordination with the peer manager, fixed for the lifetime
+	// of the fsm
+	transitionCh chan stateTransition
+	errorCh      chan error
+
 	// timers
 	connectRetryTimer *time.Timer
 	holdTimer         *time.Timer
@@ -45,12 +50,15 @@ type fsm struct {
 	idleHoldTimer     *time.Timer
 }
 
-func newFSM(peer *peer, conn net.Conn) *fsm {
+func newFSM(peer *peer, conn net.Conn, transitionCh chan stateTransition,
+	errorCh chan error) *fsm {
 	f := &fsm{
-		peer:    peer,
-		conn:    conn,
-		closeCh: make(chan struct{}),
-		doneCh:  make(chan struct{}),
+		peer:         peer,
+		conn:         conn,
+		closeCh:      make(chan struct{}),
+		doneCh:       make(chan struct{}),
+		transitionCh: transitionCh,
+		errorCh:      errorCh,
 		// we do not hold down the first time entering idle state
 		idleHoldTimer: time.NewTimer(0),
 	}
@@ -127,11 +135,11 @@ func (f *fsm) run() {
 		// signal state transition to local peer manager for coordination with
 		// the "other" fsm.
 		select {
-		case f.peer.getFSMTransitionCh(f) <- t:
+		case f.transitionCh <- t:
 			select {
 			case <-f.closeCh:
 				t = newStateTransition(t.from, disabledState)
-			case t = <-f.peer.getFSMTransitionCh(f):
+			case t = <-f.transitionCh:
 			}
 		case <-f.closeCh:
 			t = newStateTransition(t.from, disabledState)
@@ -170,7 +178,7 @@ func (f *fsm) run() {
 			select {
 			case <-f.closeCh:
 				t = newStateTransition(t.to, disabledState)
-			case f.peer.getFSMErrorCh(f) <- err:
+			case f.errorCh <- err:
 				t = newStateTransition(t.to, desired)
 			}
 		} else {
